@@ -9,18 +9,20 @@ findings: finding probes: (finding id, backend, unit, variant)
 PROPS = {
     "C01": dict(verus=["U-TS", "U-SM", "U-SER"], kani=[], bounded=["U-PARSE-B"], findings=[]),
     "C02": dict(verus=["U-SM", "U-TS"], kani=[], bounded=["U-PARSE-B"], findings=[]),
-    "C03": dict(verus=["U-SM"], kani=[], bounded=[], findings=[]),
-    "C05": dict(verus=["U-TS"], kani=[], bounded=[], findings=[]),
+    "C03": dict(verus=["U-SM"], kani=["U-TBS"], bounded=[], findings=[]),
+    "C04": dict(verus=["U-NTH"], kani=["U-SEL"], bounded=[], findings=[]),
+    "C05": dict(verus=["U-TS"], kani=["U-HVEC"], bounded=[], findings=[]),
     "C06": dict(verus=["U-SM", "U-TS"], kani=[], bounded=["U-PARSE-B"], findings=[]),
     "C07": dict(verus=["U-TS", "U-SER"], kani=[], bounded=[], findings=[]),
+    "C08": dict(verus=["U-ESCQ"], kani=["U-ESC"], bounded=["U-PARSE-B"], findings=[]),
     "C09": dict(verus=["U-TS", "U-SM"], kani=[], bounded=["U-PARSE-B"], findings=[]),
-    "C10": dict(verus=["U-TS"], kani=[], bounded=["U-PARSE-B"], findings=[]),
+    "C10": dict(verus=["U-TS"], kani=["U-MEM"], bounded=["U-PARSE-B"], findings=[]),
     "C11": dict(verus=["U-TS"], kani=[], bounded=["U-PARSE-B"], findings=[("F-C11-1", "verus", "U-TS", "F-C11-1")]),
     "C12": dict(verus=["U-TS"], kani=[], bounded=["U-PARSE-B"], findings=[]),
-    "C13": dict(verus=["U-TS"], kani=[], bounded=[], findings=[]),
+    "C13": dict(verus=["U-TS"], kani=["U-ESC"], bounded=[], findings=[]),
     "C14": dict(verus=["U-SM", "U-TS", "U-SER"], kani=[], bounded=["U-PARSE-B"], findings=[]),
-    "C15": dict(verus=["U-SM", "U-TS", "U-SER"], kani=[], bounded=[], findings=[]),
-    "C16": dict(verus=["U-SM"], kani=[], bounded=[], findings=[]),
+    "C15": dict(verus=["U-SM", "U-TS", "U-SER", "U-NTH", "U-ESCQ"], kani=["U-MEM", "U-TBS", "U-HVEC", "U-ESC"], bounded=[], findings=[]),
+    "C16": dict(verus=["U-SM"], kani=["U-SEL"], bounded=[], findings=[]),
 }
 
 LEVEL = {p: "proof" for p in PROPS}
